@@ -15,6 +15,8 @@ A *case* is a small program: a list of functions, fns[0] is the root.  Function 
   ["if", cond, [then], [else]] if <cond> { } else { }      (cond: 0/1, read from a package-level variable)
   ["for", n, [body]]           for i := 0; i < n; i++ { }  (n read through a package-level variable)
 
+In the flattened events an extra `e` marks the end of the function's entry block (first if/for reached).
+
 args: ["lit", n] | ["x"] | ["r"] | ["p", i] | ["i"] (innermost loop variable).
 
 One Go program holds many cases; `main` reads a case index from stdin and runs that case only (fresh
@@ -324,10 +326,17 @@ def flatten(case, f, index):
     fns = case["fns"]
     ev = []
 
+    entry_end = [False]
+
     def walk(stmts, path, loopvals):
         for si, s in enumerate(stmts):
             p = path + (si,)
             k = s[0]
+            if k in ("if", "for") and not entry_end[0]:
+                # the first branching statement ends the entry block: `getDefer` places `initDeferState` here
+                # (deferInitBuilder appends to the END of block 0) unless the first compiled defer is DeferAlways
+                entry_end[0] = True
+                ev.append("e")
             if k == "defer":
                 kk = index.get((f,) + p)
                 if kk is None:
